@@ -13,6 +13,29 @@ DEV_NOTE = ("Trusted: TLC, the transcription of the device rules into Devices.tl
             "built per behaviour and every terminal is read after every action); timestamps are ranks mapped monotonically to i64; "
             "numeric agreement within 2^-16 of the largest magnitude in the behaviour.")
 CLAIMS = {
+ "C01": dict(design_ref="DESIGN.md section 4, C01",
+    text="Units.tla transcribes the three implementation tables (which operator forms exist between Quantity, bare Unit, Time and "
+         "DimensionlessInteger, their result unit, when they panic), the grammar of the 49 named constants and the PositionDerivative / "
+         "Command / MotionProfilePiece conversions; TLC checks the algebraic laws on every case of the 7x7 grid (~56 000) and on random walks "
+         "with exponents up to |60|; every case is executed on the real operators (unit, panic <=> mismatch, value bits vs plain f32), the "
+         "constant table is generated from the tree's own constants.rs.",
+    note="Trusted: TLC, the transcription of the documentation tables into Units.tla, the harness. Requires dimension checking compiled in.",
+    technique=TECH),
+ "C14": dict(design_ref="DESIGN.md section 4, C14",
+    text="Kinematics.tla gives State::update, the setters with their dimension check, command-from-state, the command accessors / "
+         "conversions and component-wise arithmetic over exact rationals; TLC checks the textbook form, identity at dt = 0 and reversibility "
+         "on every case; every case is replayed on the real State / Command under 7 concretisations (ticks, value scales down to subnormals).",
+    note="Trusted: TLC, Kinematics.tla, the harness; numeric agreement within 2^-16 of the largest contributing term, bit-exact where the "
+         "property says unchanged / consistent / round-trip.",
+    technique=TECH),
+ "C18": dict(design_ref="DESIGN.md section 4, C18",
+    text="TimeInt.tla gives the exact integer algebra of Time / DimensionlessInteger (truncating division; laws checked by TLC), the mixed "
+         "forms with their convert-then-apply schema, and the conversions on the exact sub-domain; cases are replayed with power-of-two "
+         "scalings up to 2^58 (homomorphic concretisation) and compared with the Quantity operator after conversion; in the other direction "
+         "TLC validates traces of conversions recorded from the real code on arbitrary i64 times and f32 seconds against TimeIntTrace.tla "
+         "(2-ulp, monotonicity, truncation and round-trip bounds as integer inequalities on ordered f32 keys).",
+    note="Trusted: TLC, both specifications, the harness and its exact 128-bit reference arithmetic for the recorded error bounds.",
+    technique="TLA+ spec model-checked with TLC; spec cases replayed into the implementation and implementation traces validated by TLC"),
  "C02": dict(design_ref="DESIGN.md section 4, C02",
     text="Combinators.tla writes the 18 stateless getters as outcome functions from their documentation; TLC enumerates every input assignment "
          "within the quantifier (all of {Err1,Err2,Absent,Some(t)}^arity, arities 1..5, reduced outcomes to arity 8), checks table = strong Kleene "
